@@ -491,11 +491,14 @@ impl DtlsInner {
             match DtlsRecord::decode(&mut data) {
                 Ok(None) => break,
                 Ok(Some(record)) => {
-                    // Epoch 0 is the unprotected handshake epoch. Once keys exist,
-                    // application data and alerts are only valid under those keys, and
-                    // once the handshake is over nothing is valid in epoch 0 any more:
+                    // Epoch 0 is the unprotected handshake epoch: application data is never
+                    // valid in it. Once keys exist, alerts are only valid under those keys,
+                    // and once the handshake is over nothing is valid in epoch 0 any more:
                     // such records are unauthenticated and are silently discarded.
-                    if record.epoch == 0 && ctx.session_keys.is_some() {
+                    if record.epoch == 0
+                        && (record.content_type == ContentType::ApplicationData
+                            || ctx.session_keys.is_some())
+                    {
                         let handshaking = matches!(*self.state.lock(), DtlsState::Handshaking);
                         if !handshaking
                             || matches!(
